@@ -255,7 +255,7 @@ def _signature(name, rows_array, cols_array):
                 "columns_scale_mean_margin", "columns_scale_median_margin"):
         return "scale-margin-from-displayed-vectors"
     if name in ("columns_scale_mean_pairwise_indices", "columns_scale_mean_pairwise_indices_alt",
-                "summary_pairwise_indices"):
+                "summary_pairwise_indices", "pairwise_significance_tests"):
         return "legacy-pairwise-from-displayed-slice"
     return None
 
@@ -304,7 +304,13 @@ def _compare_kind(kind, name, vB, vT, al, pB, pT):
             return False
         for q in range(len(vT)):
             for attr in ("t_stats", "p_vals"):
-                pass
+                try:
+                    b = np.asarray(getattr(vB[al.posC[q]], attr), dtype=float)
+                except Exception:  # noqa - unavailable without transforms: nothing to align
+                    continue
+                t = np.asarray(getattr(vT[q], attr), dtype=float)
+                if not _arr_eq(t, al.expect("M", b)):
+                    return False
         return True
     if kind in ("RI", "CI"):
         oT, oB = (al.rT, al.rB) if kind == "RI" else (al.cT, al.cB)
